@@ -21,7 +21,11 @@ for d in $STAGE/C*; do
     if git -C $WT apply --check $diff 2>/dev/null; then
       applies=yes
       git -C $WT apply $diff
-      ( cd $WT && PYTHONPATH=$WT/src /venv/bin/python -m pytest -q -p no:cacheprovider -x >/dev/null 2>&1 ); tests=$?
+      # one wall-clock test (test_quadratic_form_constant_time) is flaky under load: up to 3 attempts
+      for attempt in 1 2 3; do
+        ( cd $WT && PYTHONPATH=$WT/src /venv/bin/python -m pytest -q -p no:cacheprovider -x >/dev/null 2>&1 ); tests=$?
+        [ $tests -eq 0 ] && break
+      done
       ( cd $WT && PYTHONPATH=$WT/src /venv/bin/python $demo >/dev/null 2>&1 ); demo_with=$?
       t0=$(date +%s)
       ( cd /verif && VERIF_REPO=$WT ./vcheck $p $TIER > /tmp/seedrun.$p.$k.log 2>&1 ); detect=$?
